@@ -120,12 +120,14 @@ PROPS = {
         nontrivial=has(r"^panic user"),
     ),
     "C14": dict(
+        bitset=True,
         profiles=[("wide", dict(quick=30, thorough=800), dict(bases=("cascade", "lifecycle"))), ("cascade", dict(quick=150, thorough=4000), {})],
         channels=["trace", "store", "reg", "ret"],
         rule="a component type that is present on entities and referenced by handlers is removed",
         nontrivial=both(has(r"^rmc"), has(r"^ret some")),
     ),
     "C15": dict(
+        bitset=True,
         profiles=[("wide", dict(quick=40, thorough=1000), dict(bases=("cascade", "graphs", "priorities", "lifecycle"))), ("cascade", dict(quick=150, thorough=4000), {}), ("graphs", dict(quick=50, thorough=1000), {}),
                   ("priorities", dict(quick=100, thorough=3000), {}), ("lifecycle", dict(quick=80, thorough=2500), {})],
         channels=["trace", "reg", "ret"],
